@@ -614,3 +614,98 @@ func Child(j *job.Job, s *job.Sink) {
 		}
 	}
 }
+
+// DecGrid: one- and two-part decimal64 restrictions over a boundary grid of mantissas,
+// at several fraction-digits, through the exported ParseRangesDecimal.
+func DecGrid(j *job.Job, s *job.Sink) {
+	one := big.NewInt(1)
+	min64 := new(big.Int).Neg(new(big.Int).Lsh(one, 63))
+	max64 := new(big.Int).Sub(new(big.Int).Lsh(one, 63), one)
+	var idx int64
+	for fi, fd := range []int{1, 2, 3, 9, 17, 18} {
+		q := exact.Pow10(fd) // one unit
+		var grid []*big.Int
+		for _, b := range []*big.Int{min64, max64, big.NewInt(0), q, new(big.Int).Neg(q), new(big.Int).Mul(q, big.NewInt(10)), new(big.Int).Mul(q, big.NewInt(-10))} {
+			for d := int64(-1); d <= 1; d++ {
+				v := new(big.Int).Add(b, big.NewInt(d))
+				if v.Cmp(min64) >= 0 && v.Cmp(max64) <= 0 {
+					grid = append(grid, v)
+				}
+			}
+		}
+		type dpart struct {
+			text   string
+			lo, hi *big.Int
+		}
+		var ps []dpart
+		for _, a := range grid {
+			ps = append(ps, dpart{litAt(a, fd, false), a, a})
+			for _, b := range grid {
+				ps = append(ps, dpart{litAt(a, fd, false) + ".." + litAt(b, fd, true), a, b})
+			}
+		}
+		for pi, a := range ps {
+			if (pi+fi)%j.Shards != j.Shard {
+				continue
+			}
+			for _, b := range append([]dpart{{}}, ps...) {
+				idx++
+				parts := []dpart{a}
+				if b.text != "" {
+					parts = append(parts, b)
+				}
+				var texts []string
+				var ivs []exact.Iv
+				outOfOrder := false
+				for _, p := range parts {
+					texts = append(texts, p.text)
+					ivs = append(ivs, exact.Iv{Lo: p.lo, Hi: p.hi})
+					if p.lo.Cmp(p.hi) > 0 {
+						outOfOrder = true
+					}
+				}
+				rfcOrdered := len(ivs) < 2 || ivs[1].Lo.Cmp(ivs[0].Hi) > 0
+				str := strings.Join(texts, "|")
+				if idx%4096 == 0 {
+					s.Current(idx, map[string]any{"restriction": str, "fraction_digits": fd})
+				}
+				s.Count("decimal_restrictions", 1)
+				if len(parts) > 1 {
+					s.Count("nontrivial", 1)
+				}
+				viol := func(class, detail string) {
+					s.Violation(idx, j.CaseID(idx), "C10.decimal", class, detail, map[string]any{"restriction": str, "fraction_digits": fd}, nil)
+				}
+				got, err := yang.ParseRangesDecimal(str, uint8(fd))
+				switch {
+				case outOfOrder:
+					if err == nil {
+						viol("accepts-invalid", fmt.Sprintf("%q at fraction-digits %d accepted as %v", str, fd, got))
+					}
+					continue
+				case !rfcOrdered:
+					if err != nil {
+						continue
+					}
+				default:
+					if err != nil {
+						viol("rejects-valid", fmt.Sprintf("%q at fraction-digits %d: %v", str, fd, err))
+						continue
+					}
+				}
+				g := toIv(got, fd)
+				want := exact.Coalesce(ivs)
+				if msg := presentation(g); msg != "" {
+					viol("presentation", fmt.Sprintf("%q -> %v: %s", str, got, msg))
+				} else if !exact.Equal(g, want) {
+					viol("wrong-set", fmt.Sprintf("%q at fraction-digits %d -> %v, written set (mantissas) %s", str, fd, got, ivString(want)))
+				}
+				for _, r := range got {
+					if int(r.Min.FractionDigits) != fd || int(r.Max.FractionDigits) != fd {
+						viol("wrong-precision", fmt.Sprintf("%q at fraction-digits %d -> a bound with %d/%d fraction digits", str, fd, r.Min.FractionDigits, r.Max.FractionDigits))
+					}
+				}
+			}
+		}
+	}
+}
